@@ -9,6 +9,7 @@ broker state `b`, every connection id and every first packet.
 -/
 import Mqtt.Proofs.BrokerLife
 import Mqtt.Proofs.BrokerRefineCor
+import Mqtt.Proofs.BrokerRefineFail
 
 namespace Mqtt.Properties.C11
 open Mqtt.Iface.Broker Mqtt.Model.Broker Mqtt.Proofs.BrokerLife
@@ -286,5 +287,36 @@ theorem C11_refines_reference (es : List Ev) (hok : okRun {} es = true) (c : Nat
     Mqtt.Proofs.BrokerRefine.refusal_refines (b := (run {} es).1) c f a hacc (specRun {} es).1
   rw [r3]
   exact ⟨by rw [← r3]; exact r2, h1, h2, codes, h3, h4, h5⟩
+
+/-! ### a first packet whose answer cannot be written -/
+
+/-- **Nothing happens before a valid CONNECT, even when the refusal cannot be delivered.**  A first packet
+that is not an acceptable CONNECT, on a connection to which nothing can be written any more
+(`handleConnection` with a failing `writeMessage`; model `connectFail`): the state is untouched - no
+connection of another client is taken over, no session is created, updated or deleted, nothing is
+subscribed or published - and the only effect is the close of that connection. -/
+theorem C11_unanswerable_refusal_changes_nothing (b : B) (c : Nat) (f : First) (a : Bool)
+    (h : accepts f a = false) : connectFail b c f a = (b, [.closed c]) := by
+  rw [Mqtt.Proofs.BrokerRefine.connectFail_eq, takeOver_refused b f a h,
+    Mqtt.Proofs.BrokerRefine.firstFail_refused b c f a h]
+  rfl
+
+/-- The same on the side of the reference broker: `Spec.Broker.connectFail` of a refused first packet
+leaves the reference state as it is. -/
+theorem C11_unanswerable_refusal_spec (s : Mqtt.Spec.Broker.S) (c : Nat) (f : First) (a : Bool)
+    (h : accepts f a = false) : (Mqtt.Spec.Broker.connectFail s c f a).1 = s := by
+  have hr := Mqtt.Proofs.BrokerRefine.spec_firstFail_refused s c f a h
+  rw [Mqtt.Proofs.BrokerRefine.spec_connectFail_eq]
+  have ht : Mqtt.Spec.Broker.takeOver s f a = (s, []) := by
+    cases f with
+    | garbage => rfl
+    | other t => rfl
+    | connect req =>
+      have hne : (Mqtt.Spec.Broker.refusals req a).isEmpty = false := by
+        cases hl : Mqtt.Spec.Broker.refusals req a with
+        | nil => exact absurd ((refusals_nil_iff req a).mp hl) (by rw [h]; simp)
+        | cons _ _ => rfl
+      simp [Mqtt.Spec.Broker.takeOver, hne]
+  rw [ht, hr]
 
 end Mqtt.Properties.C11
